@@ -752,7 +752,6 @@ structure SlotGood (cfg : Cfg) (s : Slot) : Prop where
   resort : incrSort cfg s = some s
   /-- no other index type is served from this pair -/
   exclusive : ∀ s', Hv.Beacon.phys cfg s' = s → s' = s
-  noTypeBranch : cfg.typeChangeDetected = false
   /-- every update either re-files the record in this pair or leaves its sort attribute alone -/
   stable : ∀ (o : Rec) (rq : SetReq),
     refreshes cfg s (mergeRec cfg (some o) rq) = true ∨ attrEq s o (mergeRec cfg (some o) rq)
@@ -829,24 +828,42 @@ theorem PairOk.update {cfg : Cfg} {s : Slot} (hg : SlotGood cfg s) {store : List
     intro x hx
     rw [hk]
     exact ((mem_eraseKey _ _ hs x).mp hx).2
+  have hrefile : PairOk s (eraseKey o.key store ++ [mergeRec cfg (some o) rq])
+      ((p.erase o.key).insert cfg s (mergeRec cfg (some o) rq)) :=
+    (hp.erase hs o.key).insert hg (mergeRec cfg (some o) rq) hfresh
   unfold Pair.update
   cases hi : p.init
   · intro h; simp only [Bool.not_false, if_true] at h; rw [hi] at h; cases h
-  · simp only [Bool.not_true, Bool.false_eq_true, if_false, hg.noTypeBranch, Bool.false_and]
-    cases hr : refreshes cfg s (mergeRec cfg (some o) rq)
-    · -- not re-filed: the attribute is unchanged
-      have hattr : attrEq s o (mergeRec cfg (some o) rq) := by
-        rcases hg.stable o rq with h | h
-        · rw [hr] at h; cases h
-        · exact h
-      simp only [Bool.false_eq_true, if_false]
-      intro _
-      obtain ⟨ha, hd⟩ := hp hi
-      exact ⟨ha.alias hs o _ ho hk hattr, hd.alias hs o _ ho hk hattr⟩
-    · simp only [if_true]
+  · simp only [Bool.not_true, Bool.false_eq_true, if_false]
+    by_cases htc : (cfg.typeChangeDetected && o.ct != (mergeRec cfg (some o) rq).ct) = true
+    · -- `IsContentTypeChanged`: removed from every beacon, re-added unless the new type is void — and
+      -- a Set cannot turn typed content into void (`SetContentVoid` leaves it alone)
+      simp only [htc, if_true]
+      have hnv : ((mergeRec cfg (some o) rq).ct != CT.void) = true := by
+        simp only [Bool.and_eq_true, bne_iff_ne, ne_eq] at htc
+        have hne := htc.2
+        simp only [mergeRec] at hne ⊢
+        by_cases hv : (rq.ct == CT.void) = true
+        · simp [hv] at hne
+        · simp only [hv, Bool.false_eq_true, if_false, bne_iff_ne, ne_eq]
+          simpa using hv
+      simp only [hnv, if_true]
       rw [hk]
-      have := (hp.erase hs o.key).insert hg (mergeRec cfg (some o) rq) hfresh
-      exact this
+      exact hrefile
+    · simp only [htc, Bool.false_eq_true, if_false]
+      cases hr : refreshes cfg s (mergeRec cfg (some o) rq)
+      · -- not re-filed: the attribute is unchanged
+        have hattr : attrEq s o (mergeRec cfg (some o) rq) := by
+          rcases hg.stable o rq with h | h
+          · rw [hr] at h; cases h
+          · exact h
+        simp only [Bool.false_eq_true, if_false]
+        intro _
+        obtain ⟨ha, hd⟩ := hp hi
+        exact ⟨ha.alias hs o _ ho hk hattr, hd.alias hs o _ ho hk hattr⟩
+      · simp only [if_true]
+        rw [hk]
+        exact hrefile
 
 theorem Pair.build_init (cfg : Cfg) (s : Slot) (store : List Rec) (p : Pair) : (p.build cfg s store).init = true := by
   unfold Pair.build
